@@ -103,22 +103,18 @@ def initialize_dates_from_taxa(tree, taxa, tag='date'):
         def date_of(node):
             return taxa[node.index][tag]
 
-    # parse dates
-    if max_date != 0.0:
-        # time starts at 0
-        if min(dates) == 0.0:
-            for node in tree.leaf_node_iter():
-                node.date = date_of(node)
-                node.original_date = node.date
-        # time is a year
-        else:
-            for node in tree.leaf_node_iter():
-                node.date = max_date - date_of(node)
-                node.original_date = date_of(node)
+    # parse dates (same convention as TimeTreeModel.update_leaf_heights)
+    # time starts at 0
+    if min(dates) == 0.0:
+        for node in tree.leaf_node_iter():
+            node.date = date_of(node)
+            node.original_date = node.date
+    # time is a year (or any axis running forward in time: the most recent
+    # date, possibly 0, is at height 0)
     else:
         for node in tree.leaf_node_iter():
-            node.date = 0.0
-            node.original_date = 0.0
+            node.date = max_date - date_of(node)
+            node.original_date = date_of(node)
 
 
 def heights_from_branch_lengths(tree, eps=1.0e-6):
